@@ -72,23 +72,34 @@ def automan_row(rnd, f, code, sow, har, har_latest, fixed_sow, fixed_har, off1=N
     put(0, "%-3s" % code)
     put(4, "0000" if fixed_sow else dm(w1, f)); put(9, "0000" if fixed_sow else dm(w2, f))
     put(14, "0000" if fixed_har else dm(har_latest, f))
-    put(19, "%-5s" % rnd.choice(["0.0", "5.0", "9.1", "12.0", "30.0"]))
-    if rnd.random() < 0.2:
+    # which factor decides the sowing / harvest day: rain, temperature, moisture, nothing (always) or never (forced on the last day)
+    prof = rnd.choice(["rain", "rain", "temp", "moist", "always", "never", "mixed"])
+    tsmin = {"rain": "0.0", "always": "0.0", "temp": rnd.choice(["9.1", "12.0", "5.0"]), "moist": "0.0", "never": "30.0",
+             "mixed": rnd.choice(["0.0", "5.0", "9.1", "12.0"])}[prof]
+    put(19, "%-5s" % tsmin)
+    if prof in ("temp", "mixed") and rnd.random() < 0.3:
         put(19, "%-5s" % rnd.choice(["12.0", "25.0", "2.0"])); put(24, "x")
-    put(25, "%5s" % rnd.choice(["0.0", "0.0", "30.0"])); put(32, "%5s" % rnd.choice(["97.0", "99.0", "60.0", "150.0"]))
-    put(39, "%5s" % "0.0"); put(46, "%5s" % rnd.choice(["99.0", "150.0", "70.0"]))
-    put(53, "%4s" % rnd.choice(["5.0", "2.0", "0.1", "20.0"])); put(60, "%4s" % rnd.choice(["0.5", "0.1", "0.0", "9.0"]))
-    put(68, "%3d" % rnd.choice([0, 100, 380])); put(74, "%2d" % rnd.choice([0, 0, 5]))
+    smin, smax = {"moist": (rnd.choice(["30.0", "50.0"]), rnd.choice(["60.0", "80.0"])), "mixed": (rnd.choice(["0.0", "30.0"]), rnd.choice(["97.0", "60.0", "150.0"]))}.get(prof, ("0.0", "150.0"))
+    put(25, "%5s" % smin); put(32, "%5s" % smax)
+    hprof = rnd.choice(["rain", "rain", "moist", "always", "mixed"])
+    put(39, "%5s" % "0.0"); put(46, "%5s" % {"moist": rnd.choice(["60.0", "70.0"]), "mixed": rnd.choice(["99.0", "70.0"])}.get(hprof, "150.0"))
+    put(53, "%4s" % {"rain": rnd.choice(["0.5", "1.0", "2.0"]), "mixed": rnd.choice(["5.0", "2.0", "0.1"])}.get(hprof, "20.0"))
+    put(60, "%4s" % {"rain": rnd.choice(["0.1", "0.0", "0.3"]), "mixed": rnd.choice(["0.5", "0.1", "9.0"])}.get(hprof, "9.0"))
+    put(68, "%3d" % (rnd.choice([0, 100, 380]) if prof in ("temp", "mixed") else 0)); put(74, "%2d" % rnd.choice([0, 0, 5]))
     s1 = rnd.choice([1, 2, 3, 4]); s2 = rnd.choice([x for x in (2, 3, 4, 5, 6) if x >= s1])
     put(80, "%d" % s1); put(87, "%d" % s2)
-    put(94, "%3d" % rnd.choice([0, 60, 120, 200])); put(100, "%3d" % rnd.choice([0, 80, 120])); put(106, "%3d" % rnd.choice([0, 0, 60]))
+    nd = (rnd.choice([0, 60, 120, 200]), rnd.choice([0, 80, 120]), rnd.choice([0, 0, 60]))
+    put(94, "%3d" % nd[0]); put(100, "%3d" % nd[1]); put(106, "%3d" % nd[2])
     put(112, rnd.choice(["S0 ", "S1 ", "S2 ", "100", "0  "])); put(119, rnd.choice(["S3 ", "S2 ", "140", "0  "])); put(127, rnd.choice(["S4 ", "0  ", "160"]))
     put(135, "%2d" % rnd.choice([5, 3, 7]))
     if org:
         put(143, "%-3s" % org[0]); put(149, "%3d" % org[1]); put(156, org[2] + "%-2d" % org[3])
     else:
         put(143, "---"); put(149, "  0"); put(156, "000")
-    put(163, "%3d" % rnd.choice([40, 60, 80, 95])); put(170, "%3d" % rnd.choice([30, 60, 90])); put(177, "%3d" % rnd.choice([5, 10, 20, 50]))
+    il, idp, imx = rnd.choice([40, 60, 80, 95]), rnd.choice([30, 60, 90]), rnd.choice([5, 10, 20, 50])
+    put(163, "%3d" % il); put(170, "%3d" % idp); put(177, "%3d" % imx)
+    automan_row.last = {"irrst1": float(s1), "irrst2": float(s2), "irrlow": il / 100.0, "irrdep": idp / 10.0, "irrmax": float(imx),
+                        "ndem1": float(nd[0]), "ndem2": float(nd[1]), "ndem3": float(nd[2])}
     return "".join(buf).rstrip() + " ", (w1, w2)
 
 
@@ -163,7 +174,7 @@ def make_case(rnd, idx, force_sw=None, org_p=0.35, skip=False):
         row, (w1, w2) = automan_row(rnd, f, code, anchor if skip_here else sow, har, latest, fixed_sow, fixed_har, off1, org, 2 if skip_here else None)
         rows[code] = row
         crops.append((code, sow, har, {"w1": w1, "w2": w2, "latest": latest, "fixed_sow": fixed_sow, "fixed_har": fixed_har, "org": org,
-                                       "skip": skip_here}))
+                                       "skip": skip_here, "par": dict(automan_row.last)}))
         last_free = latest if autohar else har
         y = har.year
     if crops[0][0] not in rows:
@@ -172,10 +183,11 @@ def make_case(rnd, idx, force_sw=None, org_p=0.35, skip=False):
         crops[0] = crops[0][:3] + ({"org": None},)
     return {"idx": idx, "fmt": f, "begin": begin, "end": end, "B": daynum(begin), "E": daynum(end), "crops": crops, "rows": rows,
             "sw": (automan, autofert, autoirri, autohar), "fid": "R%d" % rnd.randrange(1, 9),
-            "soil": rnd.choice(["001", "041", "075", "160"]), "fcode": rnd.choice(["109_120", "109_121"])}
+            "soil": rnd.choice(["001", "041", "075", "160"]), "fcode": rnd.choice(["109_120", "109_121"]),
+            "weather": rnd.choice(["historical", "extreme"])}
 
 
-def write_project(ex, case, prefix="c16_"):
+def write_project(ex, case, prefix="c16_", extreme=False):
     name = "%s%d" % (prefix, case["idx"])
     case["name"] = name
     src, dst = os.path.join(ex, "project", "ex1"), os.path.join(ex, "project", name)
@@ -205,10 +217,10 @@ def write_project(ex, case, prefix="c16_"):
     open(os.path.join(dst, "automan.txt"), "w").write(hdr + "\n" + "".join(r + "\n" for r in case["rows"].values()))
     annual = "3110" if f < 2 else "1031"
     a, b, c, d = case["sw"]
-    return ("project=%s WeatherFolder=historical soilId=%s fcode=%s plotNr=10001 Altitude=73 Latitude=52.6 poligonID=1 "
+    return ("project=%s WeatherFolder=%s soilId=%s fcode=%s plotNr=10001 Altitude=73 Latitude=52.6 poligonID=1 "
             "CropFileFormat=txt AutoSowingHarvest=%d AutoFertilization=%d AutoIrrigation=%d AutoHarvest=%d ManagementEvents=1 "
             "OutputIntervall=0 Dateformat=%d StartYear=%d EndDate=%s AnnualOutputDate=%s resultfolder=%s"
-            % (name, case["soil"], case["fcode"], a, b, c, d, f, case["begin"].year, fmt_date(case["end"], f), annual,
+            % (name, case["weather"] if extreme else "historical", case["soil"], case["fcode"], a, b, c, d, f, case["begin"].year, fmt_date(case["end"], f), annual,
                os.path.join(ex, "R", name)))
 
 
@@ -227,9 +239,10 @@ def nrentw_of(code):
     return _cache["nrentw"][code]
 
 
-def run_cases(ctx, cases, prefix):
-    ex = waterlib.prepare_examples(ctx, extreme_rain=False)
-    lines = [write_project(ex, c, prefix) for c in cases]
+def run_cases(ctx, cases, prefix, extreme=False):
+    ex = waterlib.prepare_examples(ctx, extreme_rain=extreme)
+    extreme = extreme and os.path.isdir(os.path.join(ex, "weather", "extreme"))
+    lines = [write_project(ex, c, prefix, extreme) for c in cases]
     lf = os.path.join(ctx.work, prefix + "lines.txt")
     open(lf, "w").write("\n".join(lines) + "\n")
     rc, recs, orc, other, err = waterlib.run_harness(ctx, "c16", ["-work", ex, "-lines", lf, "-slots", "8"])
@@ -263,7 +276,7 @@ def _run(ctx):
     # crop-skip scenarios (automatic sowing + automatic fertilisation with organic fertiliser "H")
     nskip = 40 if ctx.thorough else 4
     cases += [make_case(rnd, n + i, force_sw=rnd.choice([3, 7, 11, 15]), org_p=1.0, skip=True) for i in range(nskip)]
-    _cache["run"] = run_cases(ctx, cases, "c16_")
+    _cache["run"] = run_cases(ctx, cases, "c16_", extreme=True)
     return _cache["run"]
 
 
@@ -302,7 +315,7 @@ HDR10 = ["From Coq Require Import ZArith List Bool Floats Uint63 String.", "From
          "Import ListNotations.", "Open Scope float_scope."]
 KIND = {"sow": "automatic-sowing-decision", "hdec": "automatic-harvest-decision (some trigger value)", "hdec2": "automatic-harvest-decision (modelled condition)",
         "airr": "automatic-irrigation (decision and amount on the probed state)", "af": "automatic-fertilisation call",
-        "hcur": "harvest cursor / organic date / crop skip", "rot": "rotation-event-sequence", "odueng": "organic fertiliser split (dueng)"}
+        "hcur": "harvest cursor / organic date / crop skip", "skip": "crop skip: NAOS[0]/DSUMM/NFOS[0] against the same harvest call without skip", "rot": "rotation-event-sequence", "odueng": "organic fertiliser split (dueng)"}
 AF_MASK = ["DSUMM", "NFERTSIM", "NDOY1..3", "ZTDG[AKF]", "which organic application fired"]
 
 
@@ -330,7 +343,7 @@ def org_dgmg(cs, k):
 def build_records(cases, c, table=None):
     """Coq terms of every probed decision; returns the groups [(name, [(term, case, record)], check, type, header)]"""
     from props import c10
-    sow, hdec, hdec2, airr, af, hcur, rot, odu = [], [], [], [], [], [], [], []
+    sow, hdec, hdec2, airr, af, hcur, rot, odu, skp = [], [], [], [], [], [], [], [], []
     for cs in cases:
         sws = sws_of(cs)
         if cs["init"] is None or cs["run"] is None or not cs["run"]["success"] or cs["log"] is None or cs["final"] is None:
@@ -340,6 +353,9 @@ def build_records(cases, c, table=None):
         c.bump("switches " + sws); c.bump(FMTS[cs["fmt"]])
         ini = cs["init"]
         automan, autofert, _, autohar = cs["sw"]
+        if (ini["automan"], ini["autofert"], ini["autoirri"], ini["autohar"]) != tuple(cs["sw"]):
+            c.mismatches.append({"kind": "automation-switches", "case": cs["name"], "configured (sowing, fertilisation, irrigation, harvest)": cs["sw"],
+                                 "state": (ini["automan"], ini["autofert"], ini["autoirri"], ini["autohar"])})
         # window arrays after Input against the generated tables (python twin of the automan reader)
         for k, (code, s, h, w) in enumerate(cs["crops"]):
             if k == 0:
@@ -354,6 +370,13 @@ def build_records(cases, c, table=None):
             if got != want:
                 c.mismatches.append({"kind": "window-arrays", "case": cs["name"], "switches": sws, "entry": k, "crop": code,
                                      "observed (SAAT, ERNTE, ERNTE2[, SAAT1, SAAT2])": got, "expected": want, "automan_row": cs["rows"][code]})
+            # irrigation and N-demand parameters of the automan row (python twin of the fixed-column reader)
+            par = w.get("par", {})
+            for key, on in (("irrst1", cs["sw"][2]), ("irrst2", cs["sw"][2]), ("irrlow", cs["sw"][2]), ("irrdep", cs["sw"][2]), ("irrmax", cs["sw"][2]),
+                            ("ndem1", autofert), ("ndem2", autofert), ("ndem3", autofert)):
+                if on and key in par and c10.go_hex(ini[key][k]) != par[key]:
+                    c.mismatches.append({"kind": "automan-parameter", "case": cs["name"], "entry": k, "crop": code, "parameter": key,
+                                         "observed": c10.go_hex(ini[key][k]), "automan_row_says": par[key], "automan_row": cs["rows"][code]})
             # organic fertiliser slots after Input: ODU / timing / day offset from the files, split from the fertiliser table
             if autofert:
                 o = w.get("org")
@@ -396,6 +419,12 @@ def build_records(cases, c, table=None):
             hcur.append(("((%s, %s, %s, %s, %s, %s, %s), (%s, %s, %s))"
                          % (u(r["zeit"]), u(r["akf"]), waterlib.b(r["org_h"]), u(r["orgdoy"]), u(r["saat2_next"]), waterlib.b(r["automan"]), u(r["ztdg_before"]),
                             u(r["adv"]), u(r["ztdg_after"]), u(max(r["einte_next"], 0))), cs, r))
+            if r.get("skip"):
+                if r["skip"].get("error"):
+                    c.mismatches.append({"kind": "crop-skip-replay", "case": cs["name"], "what": "the harvest call without skip could not be replayed", "record": r})
+                else:
+                    k_ = r["skip"]
+                    skp.append(("((%s), (%s), (%s))" % (", ".join(fl(x) for x in k_["noskip"]), ", ".join(fl(x) for x in k_["pay"]), ", ".join(fl(x) for x in k_["real"])), cs, r))
         fin = cs["final"]
         if not has_skip(cs):
             rot.append(("(%s, %s, ([%s], [%s], [%s]), [%s])" % (u(ini["beginn"]), u(ini["ende"]), "; ".join(u(x) for x in fin["saat"]), "; ".join(u(x) for x in fin["ernte"]),
@@ -408,6 +437,7 @@ def build_records(cases, c, table=None):
               ("airr", airr, "airr_check2", "((int * int * int * bool) * (float * float * float * float * float * float * float * float * float * float) * (list float * list float * list float) * float)", HDR),
               ("af", af, "af_check", "((int * int * int * int) * (bool * int * bool * int * int) * (float * float * float * float * float) * (list float * list float * list float * list float) * (list float * list float * list float) * (list float * int * bool * bool))", HDR),
               ("hcur", hcur, "hcur_check", "((int * int * bool * int * int * bool * int) * (int * int * int))", HDR),
+              ("skip", skp, "skip_check", "((float * float * float) * (float * float * float) * (float * float * float))", HDR),
               ("rot", rot, "rot_check", "(int * int * (list int * list int * list int) * list (int * int * int))", HDR)]
     if table is not None:
         groups.append(("odueng", odu, "(dueng_check tab)", "(string * float * (float * float * float * float))",
@@ -420,7 +450,8 @@ def eval_groups(ctx, c, groups, prefix, only=None):
     for name, lst, chk, ty, hdr in groups:
         if only is not None and name not in only:
             continue
-        shard = max(1, (len(lst) + 5) // 6)
+        nsh = 8 if ctx.thorough else (3 if len(lst) > 600 else 1)
+        shard = max(1, (len(lst) + nsh - 1) // nsh)
         for k in range(0, len(lst), shard):
             nm = "Cases_%s_%s_%d" % (prefix, name, k // shard)
             index[nm] = (name, lst, k)
@@ -624,15 +655,19 @@ def org_oracle(cases, table):
                 want = 1 if (o[3] >= 1 and due <= E and due < nxt + 1 and harv[k]["adv"] == 1) else 0
                 if due == nxt:
                     continue          # the day of the next harvest: the organic test runs before the cursor advances — fine either way
-                got = [(z, p) for (z, p) in fert if z == due and p.get("Fertilizer") == o[0]]
+                # lines of that day in log order: the organic application is written first; mineral doses of the same call are
+                # logged under the same fertiliser name (ln.DUNGART) after it
+                got = [(z, p) for (z, p) in fert if z == due]
+                mineral = any(r["zeit"] == due and r["post"][1] != r["pools"][4] for r in cs["af"])
                 checked += 1
-                if len(got) != want:
-                    fail("after-harvest", "entry %d (%s %s, %d days after harvest on %s): %d log lines on %s, expected %d"
-                         % (k, o[0], o[1], o[3], numday(hz), len(got), numday(due), want))
-                for z, p in got:
-                    nd = go_hex(p["Ndirect"]) if "Ndirect" in p else 0.0
-                    if abs(nd - sp["ndir"]) > 1e-9 * (1 + abs(nd)):
-                        fail("amount", "entry %d: logged direct N %r, table formula %r" % (k, nd, sp["ndir"]))
+                first_nd = (go_hex(got[0][1]["Ndirect"]) if "Ndirect" in got[0][1] else 0.0) if got else None
+                is_org = bool(got) and got[0][1].get("Fertilizer", "") == (o[0] if o[0] in tab or True else "") and abs(first_nd - sp["ndir"]) <= 1e-9 * (1 + abs(first_nd))
+                if want == 1 and not is_org:
+                    fail("after-harvest", "entry %d (%s %s, %d days after harvest on %s): no organic application logged on %s (lines of the day: %s, table direct N %r)"
+                         % (k, o[0], o[1], o[3], numday(hz), numday(due), [p for _, p in got], sp["ndir"]))
+                if want == 0 and got and not mineral:
+                    fail("after-harvest", "entry %d (%s %s, %d days after harvest on %s): fertilisation logged on %s although none is due"
+                         % (k, o[0], o[1], o[3], numday(hz), numday(due)))
                 # the split in the slots (tolerance; the bit-exact tie is in the correspondence)
                 ini = cs["init"]
                 if abs(go_hex(ini["nsas"][k]) - sp["nsas"]) > 1e-9 * (1 + sp["nsas"]) or abs(go_hex(ini["nlas"][k]) - sp["nlas"]) > 1e-9 * (1 + sp["nlas"]):
